@@ -58,6 +58,7 @@ pub fn plan_c09(thorough: bool) -> Plan {
             vec![c(vec![w(1, 1333), del(0)])],
             vec![c(vec![w(2, 8192), w(0, 2)])],
             vec![c(vec![del(1), del(2), w(3, 5)])],
+            vec![c(vec![])],
             vec![json!({"ov": {"id": ovid, "on": [], "b": [w(3, 1), del(0)]}}), json!({"ovc": ovid})],
             vec![json!({"rb": 1})],
             vec![json!({"rb": 2})],
@@ -96,7 +97,7 @@ pub fn plan_c09(thorough: bool) -> Plan {
         }
         // reopen with a different configured log length at every position of the short ones
         if thorough || ll == 2 {
-            for (ops, n) in sequences(&symbols(0)[..6].to_vec(), 3) {
+            for (ops, n) in sequences(&symbols(0)[..7].to_vec(), 3) {
                 for pos in 0..=ops.len() {
                     let mut o = ops.clone();
                     o.insert(pos, json!({"reopen": {"log_len": if ll == 1 { 3 } else { 1 }}}));
@@ -163,11 +164,11 @@ pub fn plan_c09(thorough: bool) -> Plan {
             cases.push(case("empty", vec!["U4"], &cfg, "noproof", ops, 4, true));
         }
     }
-    add_quiet(&mut cases, if thorough { 1 } else { 2 });
+    add_quiet(&mut cases, if thorough { 1 } else { 5 });
     sort_by_bound(&mut cases);
     let mut p = Plan::new(
         cases,
-        "histx: every sequence of ≤L symbols over {4 fixed commit batches (1 B, 1333 B, 8 KiB values, deletes), commit of an overlay, rollback(1), rollback(2), rollback(3), reopen} for max_rollback_log_len ∈ {1,2,3} × rollback segment size ∈ {4 KiB (one record per segment), 8 KiB, 64 MiB}, plus a reopen with a different log length at every position; plus explicit two-overlay chains in which the ancestor deletes/rewrites an on-disk key and the descendant writes it (blind and read-then-write, empty values, overflow values), committed in order and rolled back one by one / at once / after a reopen; oracle: rollback(n) with n ≤ retained commits succeeds and values/root/seqn equal the model's state n commits back; a request beyond what exists fails, changes nothing and does not poison; between the two the store may either refuse or be exactly right (it legitimately retains more than configured across a reopen); every history ends with a reopen and audit (the store never becomes unopenable). bound = sequence length.",
+        "histx: every sequence of ≤L symbols over {4 fixed commit batches (1 B, 1333 B, 8 KiB values, deletes), the empty commit, commit of an overlay, rollback(1), rollback(2), rollback(3), reopen} for max_rollback_log_len ∈ {1,2,3} × rollback segment size ∈ {4 KiB (one record per segment), 8 KiB, 64 MiB}, plus a reopen with a different log length at every position; plus every sequence of ≤4 (thorough 5) symbols over {write 70000 B + 61381 B values (18 and 16 overflow pages), blind overwrite, blind delete, rewrite large, rollback(1), rollback(2), COLD reopen = a reopen after which nothing is read back} that contains a cold reopen; plus 'quiet' copies (no reads between the operations, one audit at the end) of histories that reopen; plus explicit two-overlay chains in which the ancestor deletes/rewrites an on-disk key and the descendant writes it (blind and read-then-write, empty values, overflow values), committed in order and rolled back one by one / at once / after a reopen; oracle: rollback(n) with n ≤ retained commits succeeds and values/root/seqn equal the model's state n commits back; a request beyond what exists fails, changes nothing and does not poison; between the two the store may either refuse or be exactly right (it legitimately retains more than configured across a reopen); every history ends with a reopen and audit (the store never becomes unopenable). bound = sequence length.",
     );
     p.budget_s = if thorough { 1700 } else { 45 };
     p
@@ -249,7 +250,7 @@ pub fn plan_c10(thorough: bool) -> Plan {
     sort_by_bound(&mut cases);
     let mut p = Plan::new(
         cases,
-        "histx: structural histories (empty / leaf / 20- and 21-key merkle clusters / overflow values / delete-to-one / delete-to-zero, rollback on) with a close + reopen inserted at EVERY position under every entry of a configuration menu {same, 3 workers + warm-up, minimum caches + no pinned levels, prepopulate + 3 pinned levels, 3 I/O workers, different hashtable_buckets and seed passed at reopen}, followed by a commit and a rollback, and all ordered pairs of menu entries in reopen-commit-reopen-commit-rollback; oracle: after every open root, every value (direct and through a session), a verifying truthful proof for every universe key, sync_seqn equal the model's, hash-table occupancy and capacity equal those before the close, and all later operations audit as if never closed.",
+        "histx: structural histories (empty / leaf / 20- and 21-key merkle clusters / overflow values / delete-to-one / delete-to-zero, rollback on) with a close + reopen inserted at EVERY position under every entry of a configuration menu {same, 3 workers + warm-up, minimum caches + no pinned levels, prepopulate + 3 pinned levels, 3 I/O workers, different hashtable_buckets and seed passed at reopen, same options but cold (nothing read back after the reopen)}, followed by a commit and a rollback, and all ordered pairs of menu entries in reopen-commit-reopen-commit-rollback; oracle: after every open root, every value (direct and through a session), a verifying truthful proof for every universe key, sync_seqn equal the model's, hash-table occupancy and capacity equal those before the close, and all later operations audit as if never closed.",
     );
     p.budget_s = if thorough { 1700 } else { 45 };
     p
@@ -414,6 +415,10 @@ pub fn plan_c11(thorough: bool) -> Plan {
         // committed overflow values (70000 B, 70000 B, 61381 B) next to small ones: an ancestor
         // overlay deletes a large value whose sibling then becomes the terminal of the sub-trie
         ("ovf2", vec!["seed:0,1,2,3"], vec![vec![del(0)], vec![w(1, 9), del(2)]]),
+        // an overlay inserts "round" keys (prefix·1·0…0 = the exclusive upper end of the key range
+        // of the sub-trie on their left); a descendant writes into that sub-trie, whose only leaf
+        // is on disk
+        ("round", vec!["ROUND"], vec![vec![w(2, 1), w(3, 1)], vec![w(1, 1)]]),
     ] {
         let mut cfg = rb_cfg(3, 0);
         cfg.buckets = 64;
@@ -641,10 +646,26 @@ pub fn plan_c06(thorough: bool) -> Plan {
             }
         }
     }
+    // a tiny trie (two leaves right below the root) whose terminals span the key ranges of several
+    // workers: 3, 5 (6, 7) workers, every witnessed batch of ≤3 writes/deletes over keys placed
+    // around the range boundaries
+    for cc in if thorough { vec![3usize, 5, 6, 7] } else { vec![3usize, 5] } {
+        let mut cfg = Cfg::default();
+        cfg.cc = cc;
+        cfg.buckets = 256;
+        let acts2: Vec<Value> = vec![json!(["w", 1]), json!(["d"]), json!(["rw", 2])];
+        let mut cs = enum_commit_histories(1, 10, 3, &acts2, &|ops: Vec<Value>, b: usize| case("empty", vec!["WRK"], &cfg, "root", ops, b, false));
+        for cse in cs.iter_mut() {
+            let ops = cse["ops"].as_array().unwrap().clone();
+            let batch = ops[0]["c"].clone();
+            cse["ops"] = Value::Array(vec![c(vec![w(0, 1), w(9, 1)]), json!({"cw": batch})]);
+        }
+        cases.extend(cs);
+    }
     sort_by_bound(&mut cases);
     let mut p = Plan::new(
         cases,
-        "histx: for prior states {3 colliding keys, leaf seed, 20-key merkle cluster, 1500 random keys} × commit workers {1,2,3} × warm-up {off,on}: every sorted batch with ≤B non-trivial per-key actions {read, write, read-then-write, delete, read-then-delete} over a 6–7 key universe of present and absent keys (several keys on one terminal, keys in different root-child ranges); the session runs with witnessing on; oracle: every witnessed path verifies against the previous root (= reference root), every witnessed read attests exactly the value hash the session observed and is confirmed by its path, every written key is covered with the right value hash and in scope of its path, and proof::verify_update over the witnessed writes = FinishedSession::root = reference root of the updated set.",
+        "histx: for prior states {3 colliding keys, leaf seed, 20-key merkle cluster, 1500 random keys} × commit workers {1,2,3} × warm-up {off,on}: every sorted batch with ≤B non-trivial per-key actions {read, write, read-then-write, delete, read-then-delete} over a 6–7 key universe of present and absent keys (several keys on one terminal, keys in different root-child ranges); plus, with 3 and 5 (thorough 6, 7) workers, every batch of ≤3 actions over 10 keys placed on both sides of the workers' range boundaries in a two-leaf trie (one terminal spans several workers' ranges); the session runs with witnessing on; oracle: every witnessed path verifies against the previous root (= reference root), every witnessed read attests exactly the value hash the session observed and is confirmed by its path, every written key is covered with the right value hash and in scope of its path, and proof::verify_update over the witnessed writes = FinishedSession::root = reference root of the updated set.",
     );
     p.budget_s = if thorough { 1700 } else { 45 };
     p
@@ -653,7 +674,7 @@ pub fn plan_c06(thorough: bool) -> Plan {
 pub fn plan_c13(thorough: bool) -> Plan {
     // configuration deviations from the default
     let mut menu: Vec<Value> = vec![json!({})];
-    for cc in [2, 3, 5, 16, 64, 65] {
+    for cc in [2, 3, 5, 6, 7, 16, 64, 65] {
         menu.push(json!({"cc": cc}));
     }
     menu.push(json!({"warm_up": true}));
@@ -691,6 +712,9 @@ pub fn plan_c13(thorough: bool) -> Plan {
         ("leaf", vec!["seed:0,2,5", "U4"], vec![json!({"cw": [w(0, 70000), w(3, 1333)]}), json!({"cw": [del(0), json!([1, "rd"])]}), json!({"reopen": {}}), json!({"cw": [w(4, 1300), w(5, 1300), w(6, 1300)]})]),
         ("bulk", vec!["seed:0,300,700,1100,1499", "U4"], vec![json!({"cw": [del(0), del(2), w(5, 9), w(8, 1333)]}), json!({"cw": [w(1, 1), del(4)]}), json!({"reopen": {}}), json!({"cw": [w(0, 3)]})]),
         ("branch", vec!["seed:0,1,299,300,598,599"], vec![json!({"cw": [del(0), del(1), del(2)]}), json!({"cw": [w(0, 1300), w(3, 1333)]}), json!({"reopen": {}}), json!({"cw": [del(5)]})]),
+        // a two-leaf trie whose terminals span several workers' key ranges; batches around the
+        // range boundaries of 3, 5, 6 and 7 workers
+        ("empty", vec!["WRK"], vec![json!({"c": [w(0, 1), w(9, 1)]}), json!({"cw": [w(3, 1), w(5, 1), w(6, 1), w(7, 1)]}), json!({"reopen": {}}), json!({"cw": [del(3), w(1, 1), w(4, 2), del(7)]}), json!({"cw": [w(2, 1), del(5), del(6), w(8, 1)]})]),
     ];
     let mut cases = vec![];
     for (ci, cv) in cfgs.iter().enumerate() {
@@ -727,12 +751,15 @@ pub fn plan_c13(thorough: bool) -> Plan {
             cases.push(case(seed, uni.clone(), &cfg, "all", ops, ndev.min(2), true));
         }
     }
+    // hash-table geometry: small tables, searched bitbox seeds, pages removed and re-inserted
+    // around tombstones, cold reopen (the result must not depend on buckets / seed)
+    cases.extend(tombstone_family("root", thorough));
     cases.extend(crate::schedx::worker_schedule_cases(thorough));
     add_quiet(&mut cases, 1);
     sort_by_bound(&mut cases);
     let mut p = Plan::new(
         cases,
-        "histx: deviation-bounded enumeration of the option space around the default configuration: every configuration with ≤1 (thorough ≤2) option moved to another menu value {commit_concurrency 2,3,5,16,64,65; warm_up; page cache 1 MiB; leaf cache 0/1 MiB; io_workers 2,3; hashtable_buckets 1000 (not a power of two), 65536; another bitbox seed; page_cache_upper_levels 0,1,3 with and without prepopulation; rollback on} × a fixed set of 6 multi-commit histories that span several workers' key ranges, the shared root page, the elision threshold from both sides (19- and 21-key clusters), overflow values, leaf and branch splits/merges, each with a mid-history reopen; every commit is witnessed; oracle: roots, values, proofs for every universe key, witness verification and update replay all equal the reference model (hence equal across configurations). Thread interleavings of the internal workers: every schedule with ≤2 (thorough: all) preemptions of the three merkle update workers of one witnessed commit (worker start, publish child-page roots, hand back the write pass, root-page phase) under the controlled scheduler, two batches (updates / deletes incl. a root-page leaf). Also ALL schedules (a few hundred per batch) of the three beatree leaf-stage workers of one commit whose ranges are three consecutive leaves that all fall below the merge threshold (three batches: two of three values deleted / values shrunk and last leaf deleted / middle leaf deleted), i.e. of the extend-range protocol between neighbouring workers (poll left neighbour, send request, wait for response, wait for left neighbour to conclude, join in completion order): after every schedule the values, root and proofs equal the model and the directory decodes (independent decoder) to exactly the model with every page accounted for.",
+        "histx: deviation-bounded enumeration of the option space around the default configuration: every configuration with ≤1 (thorough ≤2) option moved to another menu value {commit_concurrency 2,3,5,6,7,16,64,65; warm_up; page cache 1 MiB; leaf cache 0/1 MiB; io_workers 2,3; hashtable_buckets 1000 (not a power of two), 65536; another bitbox seed; page_cache_upper_levels 0,1,3 with and without prepopulation; rollback on} × a fixed set of 7 multi-commit histories that span several workers' key ranges (one of them a two-leaf trie whose terminals straddle the range boundaries of 3, 5, 6 and 7 workers), plus the tombstone family (16/32-bucket tables × searched bitbox seeds, pages removed and re-inserted, cold reopen), the shared root page, the elision threshold from both sides (19- and 21-key clusters), overflow values, leaf and branch splits/merges, each with a mid-history reopen; every commit is witnessed; oracle: roots, values, proofs for every universe key, witness verification and update replay all equal the reference model (hence equal across configurations). Thread interleavings of the internal workers: every schedule with ≤2 (thorough: all) preemptions of the three merkle update workers of one witnessed commit (worker start, publish child-page roots, hand back the write pass, root-page phase) under the controlled scheduler, two batches (updates / deletes incl. a root-page leaf). Also ALL schedules (a few hundred per batch) of the three beatree leaf-stage workers of one commit whose ranges are three consecutive leaves that all fall below the merge threshold (three batches: two of three values deleted / values shrunk and last leaf deleted / middle leaf deleted), i.e. of the extend-range protocol between neighbouring workers (poll left neighbour, send request, wait for response, wait for left neighbour to conclude, join in completion order): after every schedule the values, root and proofs equal the model and the directory decodes (independent decoder) to exactly the model with every page accounted for.",
     );
     p.budget_s = if thorough { 1700 } else { 45 };
     p.assumptions = vec!["thread interleavings of the internal workers are those the OS scheduler produced in these runs plus the controlled schedules of the schedx engine (see C15 evidence); sequentially-consistent interleavings only".into()];
